@@ -114,6 +114,7 @@ def modelLine (fields : List String) : String :=
       | .ok (wire, _) =>
         let dst : PoolMsg := if kind = "recycled" then { newMessage with optCap := cap } else newMessage
         match unmarshalWithDecoderN (coderOf f) dst wire with
+        | .error .optCap => "hang"      -- only reachable when the retry loop makes no progress (see `decodeRetryN`)
         | .error e => s!"pool ok {Driver.toHex wire} | dec -1 {e.toString} -"
         | .ok (n, st) => s!"pool ok {Driver.toHex wire} | dec {n} ok {fmtMsg (canonTcp f st.msg)}"
     | _, _, _ => "bad-op"
